@@ -333,7 +333,7 @@ def job_section_step(a):
         wit = next((d["run_length"] for d in det if d["run_length"] and d["run_length"] > 1), None)
         rp = dict(detail="the step depends on the LENGTH of the run", paths=det)
         if wit:
-            rp.update(native_replay=_native_section_len(wit))
+            rp.update(native_replay=_native_section_len(wit, kind))
         return [res(name, REFUTED, replayed=bool(wit and rp["native_replay"].get("violates")), replay=rp, **base)]
     sec_first, nres_first = state["after_first"]
     sec_next, res_next = state["after_next"]
@@ -358,19 +358,27 @@ def job_section_step(a):
     return [res(name, PROVED, secs=time.time() - t0, nontrivial=True, **base)]
 
 
-def _native_section_len(n):
-    """n classical gates then H on the REAL class: one section (0, n)"""
+def _native_section_len(n, kind="H"):
+    """n classical gates, then the gate of the step, then H - on the REAL class: one section covering exactly the classical run"""
     from qlasskit.decompiler import Decompiler
     from qlasskit.qcircuit import QCircuit, gates
-    qc = QCircuit(2)
+    qc = QCircuit(4)
     for i in range(n):
         qc.append(gates.X(), [i % 2])
-    qc.append(gates.H(), [0])
+    extra = {"X": (gates.X(), [1]), "CX": (gates.CX(), [0, 1]), "CCX": (gates.CCX(), [0, 1, 2]), "MCX": (gates.MCX(3), [0, 1, 2, 3])}.get(kind)
+    if extra:
+        qc.append(*extra)
+    if kind == "barrier":
+        qc.barrier()
+    if kind != "sentinel":
+        qc.append(gates.H(), [0])
+    exp = [(0, n + (1 if extra else 0))]
+    call = f"Decompiler().decompile({n} X gates" + (f", {kind}" if kind not in ("H", "sentinel") else "") + (", H)" if kind != "sentinel" else ")")
     try:
         got = [tuple(x.index) for x in Decompiler().decompile(qc)]
     except Exception as ex:  # noqa
-        return dict(call=f"Decompiler().decompile({n} X gates then H)", observed=f"raises {type(ex).__name__}: {ex}"[:200], violates=True)
-    return dict(call=f"Decompiler().decompile({n} X gates then H)", observed=got, expected=[(0, n)], violates=got != [(0, n)])
+        return dict(call=call, observed=f"raises {type(ex).__name__}: {ex}"[:200], violates=True)
+    return dict(call=call, observed=got, expected=exp, violates=got != exp)
 
 
 def _dispatch(j):
